@@ -10837,6 +10837,7 @@ class TensorDictBase(MutableMapping):
                     "Attempted to execute _foreach_clamp_max_ with a differentiable tensor. "
                     "Use `td.apply(lambda x: x.clamp_max_(val)` instead."
                 )
+            raise
         return self
 
     @_maybe_broadcast_other("clamp_max")
@@ -10879,6 +10880,7 @@ class TensorDictBase(MutableMapping):
                     "Attempted to execute _foreach_clamp_max with a differentiable tensor. "
                     "Use `td.apply(lambda x: x.clamp_max(val)` instead."
                 )
+            raise
         items = dict(zip(keys, vals))
 
         def pop(name, val):
@@ -10918,6 +10920,7 @@ class TensorDictBase(MutableMapping):
                     "Attempted to execute _foreach_clamp_min_ with a differentiable tensor. "
                     "Use `td.apply(lambda x: x.clamp_min_(val)` instead."
                 )
+            raise
 
         return self
 
@@ -10960,6 +10963,7 @@ class TensorDictBase(MutableMapping):
                     "Attempted to execute _foreach_clamp_min with a differentiable tensor. "
                     "Use `td.apply(lambda x: x.clamp_min(val)` instead."
                 )
+            raise
 
         items = dict(zip(keys, vals))
 
